@@ -77,7 +77,7 @@ static void wlLatch() {
       nWaiters = 1;
   }
   int nThreads = range(1, 3);
-  std::unique_ptr<dispenso::Latch> latchOwner(new dispenso::Latch((uint32_t)count)); // heap: store-buffer fault
+  auto latchOwner = hx::heapNew<dispenso::Latch>((uint32_t)count); // heap: store-buffer fault
   dispenso::Latch& latch = *latchOwner;
   std::vector<std::thread> threads;
   // distribute ops round-robin over decrementer threads
@@ -136,7 +136,7 @@ static void wlCEvent() {
   int delay = range(0, 40);
   sim_note("waiters", nWaiters);
   sim_note("pollers", nPollers);
-  std::unique_ptr<dispenso::CompletionEvent> evOwner(new dispenso::CompletionEvent()); // heap: store-buffer fault
+  auto evOwner = hx::heapNew<dispenso::CompletionEvent>(); // heap: store-buffer fault
   dispenso::CompletionEvent& ev = *evOwner;
   bool notified = false; // set just before notify() is invoked
   char cell = 0;         // C10: written before notify(), read once completion was observed
